@@ -244,8 +244,7 @@ Proof.
     destruct (nth_error (st_objs st) j) as [ob|], (nth_error (sp_objs sp) j) as [so|]; try contradiction; [|cbn; auto].
     pose proof Hj as ([Hl Hv] & Hm & Hn & Hca). rewrite Hv, Hm in *.
     destruct so as [sv sm sn']; cbn [so_val so_mask so_native] in *.
-    apply (derive_R st sp ob (mkSObj sv sm sn') sv sm (p_derive_keeps_cache p) false); auto.
-    now rewrite andb_false_r.
+    apply (derive_R st sp ob (mkSObj sv sm sn') sv sm true false); auto.
   - (* OTrim *)
     cbn [step sstep] in *. pose proof (F2_nth _ _ _ j HO) as Hj.
     destruct (nth_error (st_objs st) j) as [ob|], (nth_error (sp_objs sp) j) as [so|]; try contradiction; [|cbn; auto].
